@@ -368,7 +368,10 @@ def r_rayon(ctx, db, est, assume=None):
                 for v in ([item] if is_float(item) else [m.read_loc(item.cell, item.path)] if isinstance(item, VRef) else []):
                     if is_float(v):
                         m.order.set_nan(v, False)
-                r = m.call_closure(fold.st["op"], [S.v, item], None)
+                fitem = item
+                if pit_.st.get("deref") and isinstance(item, VRef):
+                    fitem = m.read_loc(item.cell, item.path)     # `.copied()`: the fold sees the items by value
+                r = m.call_closure(fold.st["op"], [S.v, fitem], None)
                 alg.add(S2, *item_values(m, item))
                 out["fold_op"] = (leaf_map(r), leaf_map(S2.v))
                 # reduce op: (A, B) -> A.merge(&B); A
